@@ -835,7 +835,10 @@ async def run(*coroutines: Coroutine, catch_sigterm: bool = True) -> None:
             try:
                 await circuit.run_forever()
             except asyncio.CancelledError:
-                pass
+                # a cancellation arriving during the cleanup must not hide a simulation error
+                err = circuit.error
+                if err is not None and not isinstance(err, asyncio.CancelledError):
+                    raise err
             return
 
         simtask = asyncio.create_task(circuit.run_forever(), name="edzed: simulation task")
